@@ -166,13 +166,13 @@ def tlc(specdir, module, cfg, *, workers="auto", timeout=600, simulate=None, dep
         if consts:
             txt = open(cfgp).read()
             # assignments given here replace those of the cfg file
-            keep = []
+            kept = []
             for line in txt.splitlines():
                 m = re.match(r"\s*(\w+)\s*(=|<-)", line)
                 if m and m.group(1) in consts:
                     continue
-                keep.append(line)
-            txt = "\n".join(keep)
+                kept.append(line)
+            txt = "\n".join(kept)
             txt += "\nCONSTANTS\n" + "\n".join(("  %s <- %s" % (k, v[2:])) if isinstance(v, str) and v.startswith("<-") else ("  %s = %s" % (k, v)) for k, v in consts.items()) + "\n"
             cfgp = os.path.join(wd, "_gen_" + cfg)
             open(cfgp, "w").write(txt)
